@@ -39,7 +39,7 @@ INTEGRITY_KINDS = ["none", "none", "correct", "wrong-same-algo", "correct-other-
 def run(ctx):
     rng = ctx.rng
     modes = drv.QUICK_MODES if ctx.quick else drv.ALL_MODES
-    n = 1500 if ctx.quick else 30000
+    n = 6000 if ctx.quick else 60000
     ctx.rule = ("case = (mode, keyed/by-address, algorithm, data size regime, chunk shape, declared size class, "
                 "declared integrity class, prior key state); the commit's error variant (and SizeMismatch numbers) "
                 "are compared with the model and metadata(key)+read(key) are compared before/after a rejected commit; "
